@@ -68,6 +68,16 @@ fn numeral_dict(ctx: &Ctx, omit_key: bool) -> std::rc::Rc<Dict> {
             for n in NEUTRAL {
                 system.push(Entry::simple(n, 1, 1, 100, &noun));
             }
+            // numeral words of two characters that declare their characters as split units: in modes A / B the joined
+            // numeral must stay one token (the join happens on the C path, a joined token has no units)
+            for w in ["二十", "百万"] {
+                let mut e = Entry::simple(w, 0, 0, 150, &num);
+                e.mode = 'C';
+                let idx = |c: char| "0123456789〇一二三四五六七八九十百千万億兆,.".chars().position(|x| x == c).unwrap() as u32;
+                e.split_a = w.chars().map(|c| WRef::Sys(idx(c))).collect();
+                e.split_b = e.split_a.clone();
+                system.push(e);
+            }
             let dic = DicModel { matrix: Matrix { nl: 2, nr: 2, lines: vec![] }, system, users: vec![] };
             let cfg = CfgModel {
                 chardef: FileSrc::Shipped,
@@ -278,7 +288,12 @@ impl Property for C15 {
         if case.preamble.is_some() {
             rep.class("earlier numeral run in the same text");
         }
-        let ml = match analyze(&dict, &text, Mode::C, None) {
+        // the mode is drawn from the case (text length): the joined numeral is the same token in every mode
+        // (a numeral that IS one of the two-character dictionary words is a single word with declared units, which
+        // modes A / B split by design: mode C then)
+        let whole_word = ["二十", "百万"].contains(&numeral.as_str()) || case.preamble.as_deref().map(|p| p.contains("二十") || p.contains("百万")).unwrap_or(false);
+        let mode = if whole_word { Mode::C } else { [Mode::C, Mode::C, Mode::A, Mode::B][text.len() % 4] };
+        let ml = match analyze(&dict, &text, mode, None) {
             Ok(m) => m,
             Err(e) => {
                 rep.fail("analysis-error", format!("text {:?}: {}", text, e));
